@@ -823,7 +823,7 @@ def _all_labels_used(ad):
     def f(tag):
         if ad.name == "BILP":
             return False                    # linear and pair coefficients may cancel
-        if ad.name == "GraphPartitioning" and tag == "default":
+        if ad.name == "GraphPartitioning" and tag.startswith("default"):
             return False                    # A = B/4 cancels the coupling of a degree-1 edge
         return True
     return f
@@ -903,6 +903,12 @@ def _run(spec, rec, qv):
             classes.append("weights/default")
             if name == "VertexCover":
                 bf.append(({}, "default"))
+            if name in ("GraphPartitioning", "JobSequencing") and B != 1:
+                # these two derive the default constraint weight from B (documented: A = B*max_length,
+                # A = min(2*degree, N)*B/8), so with A left at its default the whole energy scales with B and
+                # the default-weight claim carries over: ground energy = B * optimal cost
+                analyse(ad, nbv, {"B": B}, B * opt, good, False, "default_A_explicit_B", rec)
+                classes.append("weights/default_A_explicit_B")
         if ad.own_bruteforce:
             bf = [({}, "own")]
         if "log_trick" in spec:
